@@ -396,7 +396,71 @@ pub fn run_datagram(a: &Args) {
             }
         }
     }
+    // sampled: the same datagrams against the real socket loops on loopback multicast
+    let sample: Vec<(String, Vec<u8>)> = grams.iter().enumerate().filter(|(i, (c, _))| i % 7 == 0 || c.starts_with("short") || c.starts_with("hostile")).map(|(_, g)| g.clone()).take(600).collect();
+    let e = net_event(a, &sample);
+    st.counters.insert("net_datagrams_sent".into(), e["sent"].as_u64().unwrap_or(0));
+    st.counters.insert(format!("net_answered_{}", e["answered"].as_str().unwrap_or("?")), 1);
+    out.emit(e);
     out.finish(st.into_json("datagram",
         "datagrams of length 0..12 (three fill bytes), valid queries/responses, responses and queries naming non-UTF-8 / NUL / dot / backslash / maximal labels under and outside the watched service, every truncation and +-1 perturbation of valid traffic, the messages of Gen_RData and Gen_Inspect as queries and as responses, seeded random datagrams up to 9000 bytes -- each handled by the responder, discovery-listener and one-shot-resolver pipelines (peek, parse, build_reply / add_response_to_resources under a real RwLock, compressed serialisation, re-parse) with a valid probe every 40 datagrams; non-trivial = the datagram got past the first pipeline step",
         false));
+}
+
+// ------------------------------------------------------------------------------------ C14 on real sockets (sampled)
+/// Starts the real SimpleMdnsResponder and ServiceDiscovery (threads + loopback multicast sockets), sends
+/// hostile datagrams, then probes.  Only positive observations count: a panic on a library thread
+/// (seen by the process-wide panic hook), a poisoned store.  Anything else is "inconclusive".
+pub fn net_event(a: &Args, grams: &[(String, Vec<u8>)]) -> Value {
+    use simple_mdns::sync_discovery::{ServiceDiscovery, SimpleMdnsResponder};
+    use std::net::UdpSocket;
+    use std::time::Duration;
+    let unique = format!("v{}x{}", std::process::id(), a.seed);
+    let setup = guarded(|| -> Result<(SimpleMdnsResponder, ServiceDiscovery, UdpSocket), String> {
+        let mut responder = SimpleMdnsResponder::new(10);
+        responder.add_resource(ResourceRecord::new(Name::new_unchecked(&format!("{unique}.local")).into_owned(), CLASS::IN, 10, RData::A(A { address: 0x0a000001 })));
+        let discovery = ServiceDiscovery::new(InstanceInformation::new(format!("me{unique}")).with_port(9), &format!("_{unique}._tcp.local"), 60).map_err(|e| e.to_string())?;
+        let tx = UdpSocket::bind("0.0.0.0:0").map_err(|e| e.to_string())?;
+        tx.set_read_timeout(Some(Duration::from_millis(400))).map_err(|e| e.to_string())?;
+        Ok((responder, discovery, tx))
+    });
+    let (responder, discovery, tx) = match setup {
+        Ok(Ok(x)) => x,
+        Ok(Err(why)) => return json!({"ev": "NetRun", "cls": "net inconclusive", "sent": 0, "panics": [], "usable": "inconclusive", "answered": "inconclusive", "note": why}),
+        Err(at) => return json!({"ev": "NetRun", "cls": "net setup", "sent": 0, "panics": [at], "usable": "inconclusive", "answered": "inconclusive", "note": "panic during setup"}),
+    };
+    std::thread::sleep(Duration::from_millis(300));
+    let target = "224.0.0.251:5353";
+    let mut sent = 0u64;
+    for (i, (_, d)) in grams.iter().enumerate() {
+        if d.len() <= 9000 && tx.send_to(d, target).is_ok() {
+            sent += 1;
+        }
+        if i % 25 == 24 {
+            std::thread::sleep(Duration::from_millis(20));
+        }
+    }
+    std::thread::sleep(Duration::from_millis(500));
+    // probe: a valid unicast-response query for the responder's record
+    let mut q = Packet::new_query(0x7777);
+    q.questions.push(simple_dns::Question::new(Name::new_unchecked(&format!("{unique}.local")).into_owned(), simple_dns::TYPE::A.into(), CLASS::IN.into(), true));
+    let qb = q.build_bytes_vec().unwrap();
+    let mut answered = "inconclusive";
+    for _ in 0..3 {
+        let _ = tx.send_to(&qb, target);
+        let mut buf = [0u8; 9000];
+        if let Ok((n, _)) = tx.recv_from(&mut buf) {
+            if header_buffer::id(&buf[..n]).ok() == Some(0x7777) {
+                answered = "yes";
+                break;
+            }
+        }
+    }
+    let usable = match guarded(|| discovery.get_known_services().len()) {
+        Ok(_) => "yes",
+        Err(_) => "no",
+    };
+    drop(responder);
+    let panics: Vec<String> = FOREIGN_PANICS.lock().map(|v| v.clone()).unwrap_or_default();
+    json!({"ev": "NetRun", "cls": "net responder+discovery", "sent": sent, "panics": panics, "usable": usable, "answered": answered, "note": ""})
 }
